@@ -10,27 +10,43 @@ import pyrtl
 from pyrtl.rtllib import matrix as M
 
 RULE = ('every Matrix operation (copy/to_wirevector round trip, + - * scalar* @ ** and their in-place '
-        'forms, transpose, reversed, getitem/setitem with int/negative/slice keys, put (raise/wrap/clip, '
-        'list and Matrix values), reshape/flatten (C/F, -1), sum/min/max/argmax (axis None/0/1, bits '
-        'None/smaller/larger), dot, hstack/vstack/concatenate, bits setter, multiply) is built with the '
-        'real Matrix class on Input-driven operands of shape <= 4x4, element widths 1..8 mixed, max_bits '
-        '64 or small; result.to_wirevector() is simulated with pyrtl.Simulation, decoded and compared '
-        'with Lib/Matrix.v and with nested-list arithmetic; element values are exhaustive when all '
-        'operands together have <= 8 (quick) / 12 (thorough) input bits, otherwise seeded random with '
-        'boundary values (0, 1, 2^b-1, 2^b-2); a case is distinct by (op, shapes, widths, max_bits, '
-        'arguments, value vector) and non-trivial when the expected result is not all zero or an '
-        'error is expected; matrix_wv_to_list / list_to_int are called directly on integers')
+        'forms, transpose, reversed, getitem/setitem with int/negative/slice keys (and steps), put '
+        '(raise/wrap/clip, list and Matrix values), reshape/flatten (C/F, -1, all call forms), '
+        'sum/min/max/argmax (axis None/0/1, bits None/smaller/larger), dot (all five branches), '
+        'hstack/vstack/concatenate, bits setter, multiply) is built with the real Matrix class on '
+        'Input-driven operands of shape <= 4x4, element widths 1..8 mixed, max_bits 64 or small (2..12, '
+        'so that capping happens); result.to_wirevector() is simulated with pyrtl.Simulation, decoded and '
+        'compared with Lib/Matrix.v (tie) and with nested-list arithmetic (search); the catalogue = '
+        'every op on tiny shapes + systematic argument sweeps on six mid-size shapes + directed '
+        'small-max_bits cases + seeded random cases; element values are exhaustive when all operands '
+        'together have <= 8 input bits (<= 12 for the tiny-shape set in the thorough tier), otherwise '
+        'seeded random with boundary values (0, 1, 2^b-1, 2^b-2, all-max, ties); a case is distinct by '
+        '(op, shapes, widths, max_bits, arguments, value vector) and non-trivial when the expected '
+        'result is not all zero or an error is the expected outcome; matrix_wv_to_list / list_to_int '
+        'are called directly on integers (incl. negative and oversize elements)')
 IMPORTS = 'From PyRTL Require Import Base.PyZ Lib.Matrix.'
 COQ_TARGETS = ['theories/Lib/Matrix.vo']
-TRUSTED = ['py/checks/C19.py spec_*: nested-list integer arithmetic (numpy-free) for every operation; '
-           'documented semantics taken from the matrix.py docstrings (put: negative index counts from the '
-           'end then mode applies, short v repeats its last value; concatenate axis 0 = hstack; dot of two '
-           'vectors = inner product); Lib/Matrix.v wv_add/wv_sub/wv_mul/fma: width and value of the '
-           'WireVector operators used by matrix.py (documented op table; fma tied by simulation)']
+TRUSTED = ['py/checks/C19.py spec(): nested-list integer arithmetic (numpy-free) for every operation, following '
+           'the matrix.py docstrings: keys follow Python sequence indexing (out-of-range ints, empty '
+           'selections and slice steps other than 1 must raise); put: a negative index counts from the end, '
+           'then the mode applies (raise/wrap/clip), a short v repeats its LAST value; concatenate axis 0 = '
+           'hstack, 1 = vstack; dot: 1x1 operand = scalar product, two vectors = inner product, else matmul; '
+           'saturating subtraction = max(a-b, 0); argmax = first maximal index; data-movement operations '
+           '(copy/transpose/reversed/getitem/reshape/flatten/stacking) must not lose bits; + * scalar* @ have '
+           'the documented widths max+1 / sum / k*k*(sum) and are exact when max_bits is not reached',
+           'Lib/Matrix.v wv_add/wv_sub/wv_mul/fma: value and width of the WireVector operators used by matrix.py '
+           '(documented op table; fma = (a*b+c) mod 2^(max(wa+wb-1,wc)+1), tied by simulation)',
+           'Lib/MatrixProofs.v wfx/mrange/sumZ/dot_spec/inner_spec/mat_pow_spec/is_max/is_min/first_index: the '
+           'vocabulary the theorem statements are written in']
 ASSUMPTIONS = ['signed=False (signed matrices are documented as unsupported)',
                'max_bits is an int >= 1 (max_bits=None is not modelled)',
                'Python-level argument validation (type errors) is only checked as "raises"',
-               'slice keys stay within [-n, n]; out-of-range ints and empty slices are expected to raise']
+               'slice bounds stay within [-n, n] (Python would clamp larger ones, Matrix raises)',
+               'int values written by put/setitem fit in the element width (a Python int that does not fit makes '
+               'Const raise; WireVector/Matrix values are truncated as documented)',
+               'argmax along an axis is proved for element widths <= 64 (the intermediate max uses the default '
+               'max_bits=64); C19_argmax_wide_elements_refuted records the residue for wider elements, which '
+               'is outside the property quantifier (widths 1..8)']
 
 
 # ----------------------------------------------------------------------------- helpers
@@ -486,7 +502,7 @@ def gen_cases(ctx, tier):
         for mode in ('raise', 'wrap', 'clip'):
             for ind in ([0], [count - 1], [-1], [-count], [count], [-count - 1], [count + 2, -count - 3],
                         [1 % count, 0, count - 1], list(range(count)), [0, 0, 0]):
-                vmax = (1 << A[2]) - 1
+                vmax = (1 << capb(A[2], A[3])) - 1
                 add('put', [A], 'sweep', ind=ind, v=[rng.randint(0, vmax) for _ in range(rng.randint(1, 3))],
                     mode=mode, vmat=False, ind_int=(len(ind) == 1 and rng.random() < 0.5))
             for vc in (1, 2, count, count + 2):
@@ -609,7 +625,7 @@ def gen_cases(ctx, tier):
             ind = [rng.randint(-count - 2, count + 1) for _ in range(rng.randint(1, 5))]
             mode = rng.choice(['raise', 'wrap', 'clip'])
             if rng.random() < 0.5:
-                add('put', [A], ind=ind, v=[rng.randint(0, (1 << A[2]) - 1) for _ in range(rng.randint(0, 4))],
+                add('put', [A], ind=ind, v=[rng.randint(0, (1 << capb(A[2], A[3])) - 1) for _ in range(rng.randint(0, 4))],
                     mode=mode, vmat=False)
             else:
                 add('put', [A, operand(rng, 1, rng.randint(1, 6))], ind=ind, v=None, mode=mode, vmat=True)
